@@ -19,13 +19,17 @@ SEED = int(os.environ.get("VERIF_SEED", "1") or 1)
 # --------------------------------------------------------------------------------------
 
 
-def write_cfg(path, spec, constants, invariants, view="view", constraint=None, action_constraint="Export", props=()):
+def write_cfg(path, spec, constants, invariants, view="view", constraint=None, action_constraint="Export", props=(), export_stride=None):
+    if export_stride is not None:
+        constants = dict(constants)
+        constants["ExportStride"] = export_stride
+        constants["ExportOffset"] = SEED % export_stride
     with open(path, "w") as f:
         f.write("SPECIFICATION %s\n" % spec)
         if constants:
             f.write("CONSTANTS\n")
         for k, v in constants.items():
-            f.write("  %s = %s\n" % (k, v))
+            f.write("  %s = %s\n" % (k, v) if v is not None else "  %s\n" % k)
         if view:
             f.write("VIEW %s\n" % view)
         if invariants:
@@ -131,7 +135,7 @@ def run_tlc_export(name, module, cfgpath, outdir, tier, asan_stride, tlc_workers
     meta = os.path.join(outdir, "tlc_meta")
     shutil.rmtree(meta, ignore_errors=True)
     cmd = ["java", "-XX:+UseParallelGC", "-Xmx12g", "-cp", vlib.TLA_CP, "tlc2.TLC", "-workers", str(tlc_workers or 8),
-           "-metadir", meta, "-config", cfgpath]
+           "-metadir", meta, "-config", cfgpath, "-fp", str(SEED % 120)]
     if simulate:
         cmd += ["-simulate", simulate, "-seed", str(SEED)]
     cmd += [os.path.join(SPEC, module + ".tla")]
@@ -189,7 +193,7 @@ def run_tlc_export(name, module, cfgpath, outdir, tier, asan_stride, tlc_workers
         b["flavor"] = "asan"
     res = {"family": name, "tlc": st, "scripts": nscripts, "replayed": total + atotal, "ok": ok + aok, "bad": bad + abad,
            "samples": [unescape_beh(s) for s in samples], "wall_tlc": time.time() - t0, "asan_replayed": atotal,
-           "replay_stride": stride}
+           "replay_stride": stride, "export_sampling": open(cfgpath).read().count("ExportStride") and [l.strip() for l in open(cfgpath) if "Export" in l and "=" in l]}
     return res
 
 
@@ -391,7 +395,7 @@ def fam_stop(tier, outdir):
     if tier == "thorough":
         consts.update({"MaxTime": 6, "MaxCalls": 5, "Timeouts": "{0, 2, 3}", "MaxStops": 2, "ThirdActs": '"All"'})
     cfg = os.path.join(outdir, "MC_Stop.cfg")
-    write_cfg(cfg, "Spec", consts, ["TypeOK", "LifeChild", "WaitTruthful", "NoSignalAfterReap"])
+    write_cfg(cfg, "Spec", consts, ["TypeOK", "LifeChild", "WaitTruthful", "NoSignalAfterReap"], export_stride=1)
     return run_tlc_export("stop", "MC_Stop", cfg, outdir, tier, asan_stride=16 if tier == "quick" else 4)
 
 
@@ -401,7 +405,7 @@ def fam_life(tier, outdir):
     if tier == "thorough":
         consts.update({"MaxCalls": 6, "Depth": '"full"', "MaxTime": 2})
     cfg = os.path.join(outdir, "MC_Life.cfg")
-    write_cfg(cfg, "Spec", consts, ["TypeOK", "LifeChild", "Conservation"], props=["LifeOrder"])
+    write_cfg(cfg, "Spec", consts, ["TypeOK", "LifeChild", "Conservation"], props=["LifeOrder"], export_stride=2 if tier == "quick" else 1)
     return run_tlc_export("life", "MC_Life", cfg, outdir, tier, asan_stride=4 if tier == "quick" else 2)
 
 
@@ -411,9 +415,9 @@ def fam_poll(tier, outdir):
     if tier == "thorough":
         consts.update({"Timeouts": "{0, 1, 3}", "Masks": "{2, 10, 15, 0, 31}", "MaxSrc": 3, "MaxPolls": 2, "MaxCalls": 7})
     cfg = os.path.join(outdir, "MC_Poll.cfg")
-    write_cfg(cfg, "Spec", consts, ["TypeOK", "LifeChild", "PollBounded"])
+    write_cfg(cfg, "Spec", consts, ["TypeOK", "LifeChild", "PollBounded"], export_stride=7 if tier == "quick" else 1)
     return run_tlc_export("poll", "MC_Poll", cfg, outdir, tier, asan_stride=16 if tier == "quick" else 8, tlc_workers=10,
-                          stride=7 if tier == "quick" else 1)
+                          stride=1)
 
 
 def fam_stream(tier, outdir):
@@ -423,9 +427,9 @@ def fam_stream(tier, outdir):
     if tier == "thorough":
         consts.update({"MaxCalls": 6, "MaxOut": 3})
     cfg = os.path.join(outdir, "MC_Stream.cfg")
-    write_cfg(cfg, "Spec", consts, ["TypeOK", "LifeChild", "Conservation"])
+    write_cfg(cfg, "Spec", consts, ["TypeOK", "LifeChild", "Conservation"], export_stride=5 if tier == "quick" else 1)
     return run_tlc_export("stream", "MC_Stream", cfg, outdir, tier, asan_stride=16 if tier == "quick" else 8, tlc_workers=10,
-                          stride=5 if tier == "quick" else 1)
+                          stride=1)
 
 
 def fam_drain(tier, outdir):
@@ -435,9 +439,9 @@ def fam_drain(tier, outdir):
     if tier == "thorough":
         consts.update({"MaxCalls": 5, "MaxOut": 4, "MaxTime": 2, "SinkFails": "{1, 2, 3, 4}", "DlOpts": "{0, 1, 2}"})
     cfg = os.path.join(outdir, "MC_Drain.cfg")
-    write_cfg(cfg, "Spec", consts, ["TypeOK", "LifeChild", "Conservation"])
+    write_cfg(cfg, "Spec", consts, ["TypeOK", "LifeChild", "Conservation"], export_stride=2 if tier == "quick" else 1)
     return run_tlc_export("drain", "MC_Stream", cfg, outdir, tier, asan_stride=8, tlc_workers=10,
-                          stride=2 if tier == "quick" else 1)
+                          stride=1)
 
 
 def fam_launch(which, tier, outdir):
@@ -749,18 +753,18 @@ def fam_wrapper(tier, outdir):
 
 def fam_destroy(tier, outdir):
     consts = {"Handles": "{1}", "MaxTime": 5, "MaxCalls": 4, "PipeCap": 4, "MaxOut": 0, "ExitCodes": "{3}", "TermDelay": 1,
-              "DlOpts": "{0, 2}", "Timeouts": "{0, 2}", "ThirdActs": '"Small"'}
+              "DlOpts": "{0, 2}", "Timeouts": "{0, 2}", "ThirdActs": '"Small"', "StrictFailedStart <- Loose": None}
     if tier == "thorough":
         consts.update({"MaxTime": 6, "Timeouts": "{0, 1, 2}", "ThirdActs": '"All"'})
     cfg = os.path.join(outdir, "MC_Destroy.cfg")
-    write_cfg(cfg, "Spec", consts, ["TypeOK", "LifeChild", "DestroyReleases", "DefaultTermNotEarly"])
+    write_cfg(cfg, "Spec", consts, ["TypeOK", "LifeChild", "DestroyReleases", "DefaultTermNotEarly"], export_stride=2 if tier == "quick" else 1)
     res = run_tlc_export("destroy", "MC_Destroy", cfg, outdir, tier, asan_stride=16 if tier == "quick" else 4,
-                         stride=2 if tier == "quick" else 1)
+                         stride=1)
     # liveness under fairness, without VIEW (hist is then part of the state): the default policy terminates
     lcfg = os.path.join(outdir, "MC_Destroy_live.cfg")
     lconsts = dict(consts)
     lconsts.update({"Timeouts": "{0}", "ThirdActs": '"DefaultOnly"', "MaxTime": 4, "DlOpts": "{0, 2}"})
-    write_cfg(lcfg, "FairSpec", lconsts, [], view=None, action_constraint=None, props=["DefaultDestroyReturns"])
+    write_cfg(lcfg, "FairSpec", lconsts, [], view=None, action_constraint=None, props=["DefaultDestroyReturns"], export_stride=1)
     live = run_tlc_plain("destroy_live", "MC_Destroy", lcfg, outdir)
     res["liveness"] = live
     return res
@@ -770,7 +774,7 @@ def fam_status(tier, outdir):
     consts = {"Handles": "{1}", "MaxTime": 0, "MaxCalls": 6, "PipeCap": 4, "MaxOut": 0, "ExitCodes": "{" + ", ".join(str(i) for i in range(256)) + "}", "TermDelay": 1,
               "Signals": "{" + ", ".join(str(i) for i in range(1, 32) if i not in (17, 18, 19, 20, 21, 22, 23, 28)) + "}"}
     cfg = os.path.join(outdir, "MC_Status.cfg")
-    write_cfg(cfg, "Spec", consts, ["TypeOK", "LifeChild", "Stable"])
+    write_cfg(cfg, "Spec", consts, ["TypeOK", "LifeChild", "Stable"], export_stride=1)
     return run_tlc_export("status", "MC_Status", cfg, outdir, tier, asan_stride=4, stride=1)
 
 
@@ -780,7 +784,7 @@ def fam_run(tier, outdir):
     if tier == "thorough":
         consts.update({"MaxTime": 4, "MaxOut": 3, "SinkFails": "{1, 2, 3, 4}", "Policies": "{0, 1, 2, 3, 4}", "DlOpts": "{0, 1, 2}"})
     cfg = os.path.join(outdir, "MC_Run.cfg")
-    write_cfg(cfg, "Spec", consts, ["TypeOK", "RunTruthful"])
+    write_cfg(cfg, "Spec", consts, ["TypeOK", "RunTruthful"], export_stride=1)
     return run_tlc_export("run", "MC_Run", cfg, outdir, tier, asan_stride=8, stride=1)
 
 
@@ -835,7 +839,7 @@ PROPS = {
     "C16": {"families": ["drain", "run"], "title": "drain and run"},
     "C17": {"families": ["stream"], "title": "nonblocking never blocks; blocking waits only for the child"},
     "C08": {"families": ["poll"], "title": "deadlines and timeouts bound every wait and poll"},
-    "C09": {"families": ["poll"], "title": "poll reports exactly the true events"},
+    "C09": {"families": ["poll", "stream"], "title": "poll reports exactly the true events"},
 }
 
 NOT_APPLICABLE = {}
